@@ -49,6 +49,7 @@ class NcpState:
         self.addr = [None] * addr_slots
         self.config = {CFG_KEY_SIZE: key_slots, CFG_ADDR_SIZE: addr_slots, CFG_SEC_LEVEL: 5}
         self.values = {}
+        self.refuse_partners = []  # link keys for these partner addresses are refused by the NCP
         self.events = []  # (name, values-by-name) to emit after the response
         self.log = []
 
@@ -207,6 +208,8 @@ class NcpState:
 
     def c_addOrUpdateKeyTableEntry(self, a):
         p, k = list(a["address"]), list(a["keydata"])
+        if p in self.refuse_partners:
+            return {"status": "invalid"}
         for i, e in enumerate(self.keys):
             if e is not None and e[0] == p:
                 self.keys[i] = (p, k)
@@ -221,6 +224,8 @@ class NcpState:
         i = a["index"]
         if i >= len(self.keys):
             return {"status": "index"}
+        if list(a["address"]) in self.refuse_partners:
+            return {"status": "invalid"}
         self.keys[i] = (list(a["address"]), list(a["key"]))
 
     def c_getChildData(self, a):
